@@ -227,7 +227,7 @@ def canon_entry(e, paths):
 
 def run_ff(fn):
     try:
-        fn(None)
+        with_limit(lambda: fn(None))
         return ["OK", ""]
     except Exception as ex:  # noqa
         return [type(ex).__name__, str(ex)]
@@ -239,7 +239,7 @@ def run_collect(fn, paths, prefill=None):
     errs = list(prefill) if prefill else []
     n0 = len(errs)
     try:
-        fn(errs)
+        with_limit(lambda: fn(errs))
     except Exception as ex:  # noqa
         return [canon_entry(e, paths) for e in errs[n0:]] + [["RAISED:" + type(ex).__name__, str(ex)]]
     if prefill and (len(errs) < n0 or any(a is not b for a, b in zip(errs[:n0], prefill))):
@@ -540,3 +540,41 @@ def table_diff():
     pristine = file_rules()
     live = R.rules_dict
     return sorted(k for k in set(pristine) | set(live) if pristine.get(k) != live.get(k))
+
+
+# ------------------------------------------------------------------ a check must never hang (lesson p)
+class ValidationTimeout(Exception):
+    """an implementation call did not return within its per-call time limit"""
+
+
+TIMEOUTS = 0
+
+
+def with_limit(fn, seconds=5.0):
+    """Run fn() under a per-call time limit (SIGALRM/ITIMER_REAL, re-firing every `seconds` so that code which swallows
+    the exception and loops again is interrupted again). The previous handler and the remaining time of the
+    check-wide watchdog of harness/common.py are restored afterwards. After three time-outs the limit drops to 0.5 s."""
+    import signal
+    import time
+    global TIMEOUTS
+    if TIMEOUTS >= 3:
+        seconds = min(seconds, 0.5)
+    old_handler = signal.getsignal(signal.SIGALRM)
+    remaining, interval = signal.getitimer(signal.ITIMER_REAL)
+    t0 = time.time()
+    fired = []
+
+    def fire(sig, frame):
+        fired.append(1)
+        raise ValidationTimeout(f"no result within {seconds} s")
+    signal.signal(signal.SIGALRM, fire)
+    signal.setitimer(signal.ITIMER_REAL, seconds, seconds)
+    try:
+        return fn()
+    finally:
+        signal.setitimer(signal.ITIMER_REAL, 0, 0)
+        signal.signal(signal.SIGALRM, old_handler if old_handler is not None else signal.SIG_DFL)
+        if remaining > 0:
+            signal.setitimer(signal.ITIMER_REAL, max(0.05, remaining - (time.time() - t0)), interval)
+        if fired:
+            TIMEOUTS += 1
